@@ -25,9 +25,11 @@ type MutC09 struct {
 
 type CaseC09 struct {
 	Splice ref.Splice `json:"splice"`
-	Path   string     `json:"path"`  // "api" or "decoded"
-	Noise  uint32     `json:"noise"` // set-then-clear noise selection for the API path
-	Muts   []MutC09   `json:"muts"`  // setter calls applied before encoding
+	Path   string     `json:"path"`    // "api" or "decoded"
+	Noise  uint32     `json:"noise"`   // set-then-clear noise selection for the API path
+	Muts   []MutC09   `json:"muts"`    // setter calls applied before encoding
+	BadCRC int        `json:"bad_crc"` // decoded path: bit of the input's CRC_32 to flip (0 = intact); the decoder does not verify it
+	Tail   int        `json:"tail"`    // decoded path: 0xFF bytes after the section in the decoder's input
 }
 
 const c09Kinds = 40
@@ -48,6 +50,12 @@ func genC09(t *rapid.T) CaseC09 {
 		if rapid.Bool().Draw(t, "no-noise") {
 			c.Noise = 0
 		}
+	}
+	if c.Path == "decoded" {
+		if rapid.IntRange(0, 3).Draw(t, "bad-crc") == 0 {
+			c.BadCRC = rapid.IntRange(1, 32).Draw(t, "bad-crc-bit")
+		}
+		c.Tail = rapid.SampledFrom([]int{0, 0, 0, 1, 4, 30}).Draw(t, "tail")
 	}
 	if rapid.IntRange(0, 2).Draw(t, "with-muts") != 0 {
 		c.Muts = rapid.SliceOfN(rapid.Custom(func(t *rapid.T) MutC09 {
@@ -457,13 +465,20 @@ func checkC09(c CaseC09, x *hx.Ctx) *hx.Failure {
 		}
 	case "decoded":
 		sec := c.Splice.Encode()
-		if len(sec) > 1024 {
+		if len(sec) > 4096 {
 			return hx.Failf("bad-case", "section too long")
 		}
-		s, err := scte35.NewSCTE35(append([]byte{0}, sec...))
+		in := append([]byte{0}, sec...)
+		if c.BadCRC > 0 {
+			// receivers would reject it, this decoder does not check: whatever it re-emits must carry a correct CRC
+			in[len(in)-1-(c.BadCRC-1)/8] ^= 1 << uint((c.BadCRC-1)%8)
+		}
+		in = append(in, bytes.Repeat([]byte{0xFF}, c.Tail)...)
+		s, err := scte35.NewSCTE35(in)
 		if err != nil {
 			return hx.Failf("decode-error", "NewSCTE35 failed on a well-formed section: %v\n section %x", err, sec)
 		}
+		sec = in[1:]
 		st.sig = s
 		st.m = c09DecodedView(c.Splice)
 		carries, cp := c.Splice.CarriesTime()
@@ -531,6 +546,12 @@ func checkC09(c CaseC09, x *hx.Ctx) *hx.Failure {
 // and the decoded result with the model. It is called at the end of every
 // case and at every "encode now" step of a history.
 func c09VerifyEncoding(st *c09State, c CaseC09, what string) *hx.Failure {
+	for i := range st.m.Descs {
+		if len(st.m.Descs[i].Bytes())-2 > 255 {
+			// the setter history made a descriptor longer than descriptor_length can express: outside the domain
+			return nil
+		}
+	}
 	// expected section
 	em := c09Normalise(st.m)
 	em.Adj = (st.adjusted - st.cmdPTSField()) & m33
